@@ -117,8 +117,8 @@ fn plan(ctx: &mut CheckCtx, k: f64) {
         }
         "C05" => {
             // one evaluation = one (k, n) cell = a batch of sampler runs; the grid is fixed per tier
-            let cells = s3_reservoir::small_grid().len() + s3_reservoir::restart_grid().len() + s3_reservoir::deep_grid().len() + if ctx.tier == Tier::Thorough { s3_reservoir::large_grid().len() } else { 0 };
-            ctx.required_probes = vec!["cell_ends_in_reservoir_phase", "cell_ends_at_switch", "cell_ends_in_gap_phase"];
+            let cells = s3_reservoir::grid_len(ctx.tier);
+            ctx.required_probes = vec!["cell_ends_in_reservoir_phase", "cell_ends_at_switch", "cell_ends_in_gap_phase", "cell_fed_through_extend"];
             ctx.assumptions.push("statistical acceptance at z = 6 (regions) / 6.5 (single positions) against the binomial standard error, plus the allowance (1+ln(n/4k))/k for n > 4k+1; the default VERIF_SEED fixes the batch, other seeds have a false-alarm probability below 1e-5 per batch".into());
             ctx.run::<s3_reservoir::S3b>(cells as u64);
         }
